@@ -148,6 +148,8 @@ static char h_scndir[PATH_MAX];		/* absolute scenario directory, replaces @R */
 static int h_saved_errno;
 static h_buf h_diags, h_cbs;		/* pending diagnostics / callback log */
 static long h_failat;			/* countdown of logged invocations, 0 = disarmed */
+static int h_in_parse;			/* a parse command is running: callbacks get the owning context */
+static int h_cberror;			/* refusing callbacks call cfg_error(cfg, ...) before they return */
 static unsigned h_next_ptr_id;
 static cfg_t *h_ctx[H_MAXID];
 static cfg_t *h_lexcfg;
@@ -377,6 +379,7 @@ static void h_errfunc_alt(cfg_t *cfg, const char *fmt, va_list ap)
 	h_errtag = 0;
 }
 
+#define h_cb_end(cfg, opt) h_cb_end_x(cfg, opt, 0)
 /* start a callback log entry `<tag><K>:NAME` */
 static void h_cb_begin(char tag, int k, cfg_opt_t *opt)
 {
@@ -385,11 +388,21 @@ static void h_cb_begin(char tag, int k, cfg_opt_t *opt)
 	h_buf_hexs(&h_cbs, opt->name);
 }
 
-/* finish a counted entry; returns 1 when this invocation has to fail (failat) */
-static int h_cb_end(void)
+/* finish a counted entry; returns 1 when this invocation has to fail (failat).  The context a callback
+ * is handed is the one that owns the option: anything else is marked `?ctx` in the entry. */
+static int h_cb_end_x(cfg_t *cfg, cfg_opt_t *opt, int owns)
 {
+	int i;
+
+	for (i = 0; cfg && cfg->opts && cfg->opts[i].name; i++)
+		if (&cfg->opts[i] == opt)
+			owns = 1;
+	if (!owns && h_in_parse && opt->type != CFGT_FUNC)
+		h_buf_puts(&h_cbs, "?ctx");
 	if (h_failat > 0 && --h_failat == 0) {
 		h_buf_puts(&h_cbs, "!");
+		if (h_cberror)
+			cfg_error(cfg, "callback refused '%s'", opt->name);
 		return 1;
 	}
 	return 0;
@@ -406,7 +419,7 @@ static int h_parse(int k, cfg_t *cfg, cfg_opt_t *opt, const char *value, void *r
 	h_cb_begin('p', k, opt);
 	h_buf_puts(&h_cbs, ":");
 	h_buf_hexs(&h_cbs, value);
-	if (h_cb_end())
+	if (h_cb_end(cfg, opt))
 		return 1;
 	switch (opt->type) {
 	case CFGT_INT:
@@ -437,6 +450,8 @@ static int h_parse(int k, cfg_t *cfg, cfg_opt_t *opt, const char *value, void *r
 	default:
 		break;
 	}
+	if (k == 3)
+		errno = ERANGE;	/* script 3 also leaves a stale errno behind, as a callback calling strtol() may */
 	return 0;
 }
 
@@ -459,7 +474,7 @@ static int h_valid(int k, cfg_t *cfg, cfg_opt_t *opt)
 	(void)cfg;
 	h_cb_begin('v', k, opt);
 	h_buf_printf(&h_cbs, ":%u", cfg_opt_size(opt));
-	return h_cb_end();
+	return h_cb_end(cfg, opt);
 }
 
 static int h_valid2(int k, cfg_t *cfg, cfg_opt_t *opt, void *value)
@@ -479,7 +494,7 @@ static int h_valid2(int k, cfg_t *cfg, cfg_opt_t *opt, void *value)
 		h_buf_hexs(&h_cbs, (const char *)value);
 	else
 		h_buf_puts(&h_cbs, "?");
-	if (h_cb_end())
+	if (h_cb_end_x(cfg, opt, 1) /* a by-name setter hands over the context it was called with */)
 		return 1;
 	if (k == 1 && kind == 'i' && *(long *)value < 0)
 		*(long *)value = (long)(0UL - (unsigned long)*(long *)value);	/* LONG_MIN stays LONG_MIN */
@@ -505,7 +520,7 @@ static int h_func(int k, cfg_t *cfg, cfg_opt_t *opt, int argc, const char **argv
 			h_buf_puts(&h_cbs, ",");
 		h_buf_hexs(&h_cbs, argv[i]);
 	}
-	return h_cb_end();
+	return h_cb_end(cfg, opt);
 }
 
 /* `nest:K` function option: parses its first argument as a text into context K while the calling parse is
@@ -518,7 +533,7 @@ static int h_nest(int k, cfg_t *cfg, cfg_opt_t *opt, int argc, const char **argv
 	h_cb_begin('n', k, opt);
 	h_buf_puts(&h_cbs, ":");
 	h_buf_hexs(&h_cbs, argc > 0 ? argv[0] : NULL);
-	if (h_cb_end())
+	if (h_cb_end(cfg, opt))
 		return 1;
 	if (argc > 0 && h_ctx[k])
 		rc = cfg_parse_buf(h_ctx[k], argv[0]);
@@ -960,6 +975,11 @@ static void h_c_ambient(const char *cmd, cfg_t *cfg)
 
 		if (!h_bad)
 			h_failat = v > 0 ? v : 0;
+	} else if (!strcmp(cmd, "cberror")) {	/* a refusing callback reports through cfg_error() first (library only) */
+		long v = h_long(1);
+
+		if (!h_bad)
+			h_cberror = v != 0;
 	} else if (!strcmp(cmd, "passwd")) {
 		char *user = h_str(1), *home = h_pathstr(2);
 		size_t i;
@@ -1006,6 +1026,23 @@ static void h_c_ambient(const char *cmd, cfg_t *cfg)
 				ok = 0;
 			if (fp && fclose(fp) != 0)
 				ok = 0;
+		} else if (!strcmp(kind, "link")) {	/* file PATH link TARGET: a symbolic link to another scenario file */
+			char *target = data && len ? h_pathstr(3) : NULL;
+			char *abs;
+
+			if (h_bad || !target || !h_path_ok(target)) {
+				h_bad = 1;
+				return;
+			}
+			abs = h_xrealloc(NULL, strlen(h_scndir) + strlen(target) + 2);
+			if (target[0] == '/')
+				strcpy(abs, target);
+			else
+				sprintf(abs, "%s/%s", h_scndir, target);
+			h_mkdirs(path, 0);
+			unlink(path);
+			ok = symlink(abs, path) == 0;
+			free(abs);
 		} else if (!strcmp(kind, "dir")) {
 			ok = h_mkdirs(path, 1) == 0;
 		} else if (!strcmp(kind, "missing")) {
@@ -1101,7 +1138,7 @@ static void h_c_parse_fpfail(const char *cmd, cfg_t *cfg)
 	fp = fopencookie(&f, "r", io);
 	if (!fp)
 		h_die("fopencookie");
-	H_LIB(rc = cfg_parse_fp(cfg, fp));
+	h_in_parse++; H_LIB(rc = cfg_parse_fp(cfg, fp)); h_in_parse--;
 	fclose(fp);
 	h_std(cmd, "rc=%d", rc);
 }
@@ -1128,9 +1165,9 @@ static void h_c_parse(const char *cmd, cfg_t *cfg)
 	if (!strcmp(cmd, "searchpath")) {
 		H_LIB(rc = cfg_add_searchpath(cfg, arg));
 	} else if (!strcmp(cmd, "parse_buf")) {
-		H_LIB(rc = cfg_parse_buf(cfg, arg));
+		h_in_parse++; H_LIB(rc = cfg_parse_buf(cfg, arg)); h_in_parse--;
 	} else if (!strcmp(cmd, "parse_file")) {
-		H_LIB(rc = cfg_parse(cfg, arg));
+		h_in_parse++; H_LIB(rc = cfg_parse(cfg, arg)); h_in_parse--;
 	} else {
 		FILE *fp = arg ? fopen(arg, "r") : NULL;
 
@@ -1138,7 +1175,7 @@ static void h_c_parse(const char *cmd, cfg_t *cfg)
 			h_std(cmd, "rc=nofile");
 			return;
 		}
-		H_LIB(rc = cfg_parse_fp(cfg, fp));
+		h_in_parse++; H_LIB(rc = cfg_parse_fp(cfg, fp)); h_in_parse--;
 		fclose(fp);
 	}
 	h_std(cmd, "rc=%d", rc);
@@ -1601,7 +1638,7 @@ static void h_c_roundtrip(const char *cmd, cfg_t *cfg)
 		h_die("open_memstream");
 	H_LIB(cfg_print_indent(cfg, fp, 0));
 	fclose(fp);
-	H_LIB(rc = cfg_parse_buf(h_ctx[d], text));
+	h_in_parse++; H_LIB(rc = cfg_parse_buf(h_ctx[d], text)); h_in_parse--;
 	h_buf_hex(&b, text, len);
 	h_std(cmd, "rc=%d text=%s", rc, h_buf_str(&b));
 	h_buf_free(&b);
@@ -1660,7 +1697,7 @@ static const struct h_cmd {
 } h_cmds[] = {
 	{ "env", h_c_ambient, 0, 3, 3 }, { "envroot", h_c_ambient, 0, 2, 2 }, { "unsetenv", h_c_ambient, 0, 2, 2 }, { "errno", h_c_ambient, 0, 2, 2 },
 	{ "file", h_c_ambient, 0, 3, 4 }, { "passwd", h_c_ambient, 0, 3, 3 }, { "passwd_self", h_c_ambient, 0, 2, 2 },
-	{ "failat", h_c_ambient, 0, 2, 2 },
+	{ "failat", h_c_ambient, 0, 2, 2 }, { "cberror", h_c_ambient, 0, 2, 2 },
 	{ "init", h_c_init, 0, 4, 4 }, { "poison", h_c_poison, 0, 2, 2 }, { "free", h_c_free, 1, 2, 2 },
 	{ "searchpath", h_c_parse, 1, 3, 3 }, { "parse_buf", h_c_parse, 1, 3, 3 },
 	{ "parse_file", h_c_parse, 1, 3, 3 }, { "parse_fp", h_c_parse, 1, 3, 3 }, { "parse_fpfail", h_c_parse_fpfail, 1, 3, 3 }, { "errfunc", h_c_errfunc, 1, 3, 3 }, { "lex", h_c_lex, 0, 2, 2 },
